@@ -60,6 +60,13 @@ class _Continue(Exception):
 OPAQUE = object()
 
 
+class FuncRef:
+    """a module-level function of the analysed module, used as a value"""
+
+    def __init__(self, node):
+        self.node = node
+
+
 class DefaultDict(dict):
     def __init__(self, factory):
         super().__init__()
@@ -152,6 +159,9 @@ class ObjEval:
             cur = self.ev(st.target, env)
             v = self.ev(st.value, env)
             env[st.target.id] = self.binop(st.op, cur, v)
+        elif isinstance(st, ast.AugAssign) and isinstance(st.target, ast.Subscript):
+            cur = self.ev(ast.Subscript(value=st.target.value, slice=st.target.slice, ctx=ast.Load()), env)
+            self.bind(st.target, self.binop(st.op, cur, self.ev(st.value, env)), env)
         elif isinstance(st, ast.Return):
             raise _Ret(self.ev(st.value, env) if st.value is not None else None)
         elif isinstance(st, ast.If):
@@ -221,6 +231,8 @@ class ObjEval:
     def truth(v):
         if v is OPAQUE:
             raise Unsupported("truth of an opaque value")
+        if isinstance(v, FuncRef):
+            return True
         return bool(v)
 
     def binop(self, op, a, b):
@@ -239,6 +251,8 @@ class ObjEval:
                 return env[e.id]
             if e.id in ("True", "False", "None"):
                 return {"True": True, "False": False, "None": None}[e.id]
+            if e.id in self.methods:
+                return FuncRef(self.methods[e.id])
             return OPAQUE   # a class / module name
         if isinstance(e, ast.NamedExpr):
             v = self.ev(e.value, env)
@@ -333,6 +347,20 @@ class ObjEval:
             if base is OPAQUE:
                 return OPAQUE
             raise Unsupported(f"attribute {e.attr}")
+        if isinstance(e, ast.DictComp) and len(e.generators) == 1:
+            g = e.generators[0]
+            seq = self.ev(g.iter, env)
+            if not isinstance(seq, (list, tuple, range)):
+                raise Unsupported("comprehension over a non-sequence")
+            out, saved = {}, dict(env)
+            for x in list(seq):
+                self.tick()
+                self.bind(g.target, x, env)
+                if all(self.truth(self.ev(c, env)) for c in g.ifs):
+                    out[self._key(self.ev(e.key, env))] = self.ev(e.value, env)
+            env.clear()
+            env.update(saved)
+            return out
         if isinstance(e, (ast.ListComp, ast.GeneratorExp)) and len(e.generators) == 1:
             g = e.generators[0]
             seq = self.ev(g.iter, env)
@@ -360,6 +388,29 @@ class ObjEval:
             if isinstance(ids, list) and all(isinstance(x, int) for x in ids):
                 return Built(last, ids)
             raise Unsupported("constructor argument")
+        if isinstance(e.func, ast.Subscript) and isinstance(e.func.value, ast.Name) and e.func.value.id in ("dict", "list", "set") and not e.args:
+            return {} if e.func.value.id == "dict" else []   # `dict[int, list[int]]()`
+        if isinstance(e.func, ast.Name) and callable(env.get(e.func.id)) :
+            host = env[e.func.id]
+            return host(*[self.ev(a, env) for a in e.args], **{k.arg: self.ev(k.value, env) for k in e.keywords if k.arg})
+        if isinstance(e.func, ast.Name) and (isinstance(env.get(e.func.id), FuncRef) or (e.func.id in self.methods and e.func.id not in env)):
+            fn_ = env[e.func.id].node if isinstance(env.get(e.func.id), FuncRef) else self.methods[e.func.id]
+            names_ = [a.arg for a in fn_.args.posonlyargs + fn_.args.args]
+            vals_ = [self.ev(a, env) for a in e.args]
+            sub = dict(zip(names_, vals_))
+            for k in e.keywords:
+                if k.arg:
+                    sub[k.arg] = self.ev(k.value, env)
+            defaults = fn_.args.defaults
+            for i_, nm_ in enumerate(names_):
+                if nm_ not in sub:
+                    j_ = i_ - (len(names_) - len(defaults))
+                    if j_ >= 0:
+                        sub[nm_] = self.ev(defaults[j_], {})
+            for a_, d_ in zip(fn_.args.kwonlyargs, fn_.args.kw_defaults):
+                if a_.arg not in sub and d_ is not None:
+                    sub[a_.arg] = self.ev(d_, {})
+            return self.run_free(fn_, sub)
         if isinstance(e.func, ast.Name):
             args = []
             for a in e.args:
